@@ -157,27 +157,49 @@ def explain(real, inp_a, inp_b):
 
 
 def own_normalisation_consistent(libname, inputs):
-    """True iff, for each input, the real mapping equals the reference
-    interpreter's decomposition of the normalised molecule of THAT call (so
-    the only difference between the inputs is the normalised molecule)."""
+    """-> (consistent, ring_only).
+    consistent: for each input the real mapping equals the reference
+    interpreter's decomposition of the normalised molecule of THAT call.
+    ring_only: the normalised molecules of the two calls are the same
+    labelled graph except for how ring bonds are perceived (single / double /
+    aromatic) and which ring carbons carry the aromatic flag."""
     from vmon.props import c02
     from vmon.refs import ring as R
+    import networkx as nx
+    from networkx.algorithms.isomorphism import categorical_node_match, \
+        categorical_edge_match
     real, ref = c02.get_scheme(libname)
+    graphs = []
     try:
         for inp in inputs:
             real._verif_last_mol = None
             got = dict(real.GetDescriptors(inp))
             hm = real._verif_last_mol
             if hm is None:
-                return False
+                return False, None
             want, _, _ = ref.decompose(hm, R.Facts(hm))
             keys = set(got) | set(want)
             if any(abs(float(got.get(k, 0)) - float(want.get(k, 0))) > 1e-12
                    for k in keys):
-                return False
-        return True
+                return False, None
+            g = nx.Graph()
+            for a in hm.GetAtoms():
+                g.add_node(a.GetIdx(), lab=(a.GetAtomicNum(),
+                                            a.GetFormalCharge(),
+                                            a.GetNumRadicalElectrons()))
+            for b in hm.GetBonds():
+                t = str(b.GetBondType())
+                if b.IsInRing() and t in ('SINGLE', 'DOUBLE', 'AROMATIC'):
+                    t = 'ring-sda'
+                g.add_edge(b.GetBeginAtomIdx(), b.GetEndAtomIdx(), lab=t)
+            graphs.append(g)
+        ring_only = nx.is_isomorphic(
+            graphs[0], graphs[1],
+            node_match=categorical_node_match('lab', None),
+            edge_match=categorical_edge_match('lab', None))
+        return True, bool(ring_only)
     except Exception:
-        return False
+        return False, None
 
 
 def fused_aromatic(smi):
@@ -226,8 +248,9 @@ def check_case(ctx, case):
                             if fused_aromatic(smi) else '')
 
         consistent = None
-        if fused_aromatic(smi) and 'exc' not in (major[0][0], minor[0][0]):
-            consistent = own_normalisation_consistent(
+        ring_only = None
+        if 'exc' not in (major[0][0], minor[0][0]):
+            consistent, ring_only = own_normalisation_consistent(
                 libname, [major[1][0][1], minor[1][0][1]])
 
         def show(inp):
@@ -238,6 +261,8 @@ def check_case(ctx, case):
             'fused_aromatic': fused_aromatic(smi),
             'each_variant_is_the_declared_decomposition_of_its_own_'
             'normalised_molecule': consistent,
+            'normalised_molecules_differ_only_in_ring_bond_perception':
+                ring_only,
             'outcomes': [{'outcome': (oc[1] if oc[0] == 'exc' else
                                       dict(oc[1])),
                           'n_inputs': len(lst),
@@ -289,17 +314,21 @@ def replay(ctx, case):
 
 
 def classify(v):
-    """Known finding (DESIGN section 3, #26): which rings of a fused aromatic
-    system are made aromatic depends on the Kekule structure RDKit picks for
-    the particular spelling.  An instance must (a) concern a molecule with
-    fused aromatic rings, (b) differ in descriptors, not in failure, and (c)
-    each variant must be exactly the declared decomposition of its own
-    normalised molecule -- so any other cause of a difference is still
-    reported."""
+    """Known finding (DESIGN section 3, #26, widened after the thorough tier
+    found a bridged bicyclic instance): the NORMALISED molecule depends on
+    the spelling -- which Kekule structure RDKit picks and which rings its
+    SSSR reports decide which C6 rings the ring-by-ring Benson perception
+    makes aromatic.  An instance must (a) differ in descriptors, not in
+    failure, (b) each variant must be exactly the declared decomposition of
+    its own normalised molecule (reference interpreter on the hook molecule),
+    and (c) the two normalised molecules must be the same labelled graph
+    except for the perception of ring bonds -- so any other cause of a
+    difference is still reported."""
     d = v.get('detail', {})
-    if d.get('fused_aromatic') and d.get(
-            'each_variant_is_the_declared_decomposition_of_its_own_'
-            'normalised_molecule') is True:
+    if d.get('each_variant_is_the_declared_decomposition_of_its_own_'
+             'normalised_molecule') is True and d.get(
+            'normalised_molecules_differ_only_in_ring_bond_perception') \
+            is True:
         return 'kekule-form-dependent-perception'
     return None
 
